@@ -245,7 +245,7 @@ class Analyzer:
             if not libbase and d not in (FRESH_CALLS | VIEW_CALLS | MAYVIEW_CALLS):
                 recv = self.ev(e.func.value)
                 if m in MUTATING_METHODS:
-                    self.write(recv, e.lineno, f'.{m}()')
+                    self.write(recv, e.lineno, f'!.{m}()')
                     val = AV((), allr)
                     self.store_into(recv, val)
                     self.reach_more(e.func.value, val)
@@ -410,7 +410,7 @@ class Analyzer:
                     self.bind(t.value if isinstance(t, ast.Starred) else t, v.deref())
         elif isinstance(tg, (ast.Subscript, ast.Attribute)):
             base = self.ev(tg.value)
-            how = ast.unparse(tg)[:50] + (' = ... (in-place reshape)' if isinstance(tg, ast.Attribute) and tg.attr == 'shape' else ' = ...')
+            how = '!' + ast.unparse(tg)[:50] + (' = ... (in-place reshape)' if isinstance(tg, ast.Attribute) and tg.attr == 'shape' else ' = ...')
             self.write(base, tg.lineno, how)
             self.store_into(base, v)
             self.reach_more(tg, v)
@@ -553,7 +553,8 @@ def check_frame(mod, qual, modifies=(), fresh_result=False, result_may_share=())
         for c, ln, how in ws:
             (bad_c if c else bad_m).append(f'{p} written at line {ln}: {how}')
     if bad_c:
-        out.append(('modifies', 'refuted', '; '.join(bad_c[:4])))
+        definite = [b for b in bad_c if ': !' in b or '(!' in b]
+        out.append(('modifies', 'refuted', ('definite-write: ' if definite else '') + '; '.join((definite or bad_c)[:4])))
     elif bad_m:
         out.append(('modifies', 'undecided', 'may-write: ' + '; '.join(bad_m[:4])))
     else:
